@@ -239,6 +239,29 @@ type Case struct {
 	// Wide > 0: that many further user scalar attributes feat_000.. (values from a recipe) are added
 	// before writing: vertex records of hundreds of bytes, ascii lines beyond 1 KiB (feature clouds)
 	Wide int `json:",omitempty"`
+	// Custom > 0: the mesh is written through a MeshWriter configured by the caller instead of
+	// ply.Write: the default property list plus a per-vertex s/t writer for TexCoord (1: by value,
+	// 2: by pointer) - the layout other tools read - with WriteUnspecifiedProperties on.
+	Custom int `json:",omitempty"`
+}
+
+// customWriter is ply.Write's property list (formats/ply/write.go) plus per-vertex texture coordinates.
+func customWriter(format ply.Format, kind int) ply.MeshWriter {
+	props := []ply.PropertyWriter{
+		ply.Vector3PropertyWriter{ModelAttribute: modeling.PositionAttribute, Type: ply.Float, PlyPropertyX: "x", PlyPropertyY: "y", PlyPropertyZ: "z"},
+		ply.Vector3PropertyWriter{ModelAttribute: modeling.NormalAttribute, Type: ply.Float, PlyPropertyX: "nx", PlyPropertyY: "ny", PlyPropertyZ: "nz"},
+		ply.Vector3PropertyWriter{ModelAttribute: modeling.ColorAttribute, Type: ply.UChar, PlyPropertyX: "red", PlyPropertyY: "green", PlyPropertyZ: "blue"},
+		&ply.Vector3PropertyWriter{ModelAttribute: modeling.FDCAttribute, Type: ply.Float, PlyPropertyX: "f_dc_0", PlyPropertyY: "f_dc_1", PlyPropertyZ: "f_dc_2"},
+		&ply.Vector1PropertyWriter{ModelAttribute: modeling.OpacityAttribute, Type: ply.Float, PlyProperty: "opacity"},
+		&ply.Vector3PropertyWriter{ModelAttribute: modeling.ScaleAttribute, Type: ply.Float, PlyPropertyX: "scale_0", PlyPropertyY: "scale_1", PlyPropertyZ: "scale_2"},
+		&ply.Vector4PropertyWriter{ModelAttribute: modeling.RotationAttribute, Type: ply.Float, PlyPropertyX: "rot_0", PlyPropertyY: "rot_1", PlyPropertyZ: "rot_2", PlyPropertyW: "rot_3"},
+	}
+	if kind == 2 {
+		props = append(props, &ply.Vector2PropertyWriter{ModelAttribute: modeling.TexCoordAttribute, Type: ply.Float, PlyPropertyX: "s", PlyPropertyY: "t"})
+	} else {
+		props = append(props, ply.Vector2PropertyWriter{ModelAttribute: modeling.TexCoordAttribute, Type: ply.Float, PlyPropertyX: "s", PlyPropertyY: "t"})
+	}
+	return ply.MeshWriter{Format: format, WriteUnspecifiedProperties: true, Properties: props}
 }
 
 func widen(d gen.MeshDesc, k int) gen.MeshDesc {
@@ -262,6 +285,9 @@ var plyAttrs = []gen.AttrSpec{
 	{Name: modeling.TexCoordAttribute, Arity: 2}, {Name: modeling.FDCAttribute, Arity: 3}, {Name: modeling.ScaleAttribute, Arity: 3},
 	{Name: modeling.OpacityAttribute, Arity: 1}, {Name: modeling.RotationAttribute, Arity: 4},
 	{Name: "Custom1", Arity: 1}, {Name: "Custom2", Arity: 2}, {Name: "Custom3", Arity: 3}, {Name: "Custom4", Arity: 4},
+	// reserved names in another width: a per-point sprite size "Scale", RGBA "Color" (what ReadMesh
+	// itself produces from files with an alpha channel) - stored as plain scalars name / name_k
+	{Name: modeling.ScaleAttribute, Arity: 1}, {Name: modeling.ColorAttribute, Arity: 4},
 }
 
 func plyVal() *rapid.Generator[float64] {
@@ -309,6 +335,9 @@ func genCase(t *rapid.T) Case {
 	}
 	if d.PrimCount() > 0 && rapid.IntRange(0, 3).Draw(t, "tex") == 0 {
 		c.TexURI = rapid.SampledFrom([]string{"tex.png", "a b.jpg", "dir/t.png"}).Draw(t, "uri")
+	}
+	if _, ok := d.V2[modeling.TexCoordAttribute]; ok && rapid.Uint64().Draw(t, "custom")%3 == 0 {
+		c.Custom = 1 + int(rapid.Uint64().Draw(t, "customKind")%2)
 	}
 	return c
 }
@@ -417,12 +446,22 @@ func runCase(c Case, o *vh.Obs) *vh.Failure {
 		}
 	}
 	exp := expected(d)
+	if c.Custom > 0 {
+		o.Class(fmt.Sprintf("custom-meshwriter/per-vertex-uv/%s", d.Topology().String()))
+		o.NonTrivial()
+	}
 	var decoded []*modeling.Mesh
 	for fi, format := range formats {
 		fname := []string{"ascii", "little-endian", "big-endian"}[fi]
 		buf := &bytes.Buffer{}
 		var err error
-		if kind, val := oracle.Try(func() { err = ply.Write(buf, src, format) }); kind != "" {
+		if kind, val := oracle.Try(func() {
+			if c.Custom > 0 {
+				err = customWriter(format, c.Custom).Write(src, buf)
+			} else {
+				err = ply.Write(buf, src, format)
+			}
+		}); kind != "" {
 			return vh.Failf("write-panic/"+fname, "ply.Write panicked (%s): %v", kind, val)
 		}
 		if err != nil {
